@@ -135,9 +135,16 @@ impl PubSubManager {
         let mut conn_subs = self.connections.lock().unwrap();
         let mut channel_subs = self.channels.lock().unwrap();
         
+        // A connection without a record is treated as one with empty sets: every named
+        // channel is still acknowledged (with the count 0), as in Redis
+        let mut no_record = SubscriberInfo {
+            connection_id,
+            channels: HashSet::new(),
+            patterns: HashSet::new(),
+        };
         let conn_info = match conn_subs.get_mut(&connection_id) {
             Some(info) => info,
-            None => return Ok(results), // Connection has no subscriptions
+            None => &mut no_record,
         };
         
         // Determine which channels to unsubscribe from
@@ -225,9 +232,16 @@ impl PubSubManager {
         let mut conn_subs = self.connections.lock().unwrap();
         let mut pattern_subs = self.patterns.lock().unwrap();
         
+        // A connection without a record is treated as one with empty sets: every named
+        // pattern is still acknowledged (with the count 0), as in Redis
+        let mut no_record = SubscriberInfo {
+            connection_id,
+            channels: HashSet::new(),
+            patterns: HashSet::new(),
+        };
         let conn_info = match conn_subs.get_mut(&connection_id) {
             Some(info) => info,
-            None => return Ok(results), // Connection has no subscriptions
+            None => &mut no_record,
         };
         
         // Determine which patterns to unsubscribe from
